@@ -1,4 +1,4 @@
-(* Non-vacuity, part 2: examples for the property theorems added to props/C02.v, C04.v, C09.v, C11.v, C14.v
+(* Non-vacuity, part 2: examples for the property theorems added to props/C02.v, C04.v, C06.v, C09.v, C11.v, C14.v
    after proofs/NonVacuity.v was written.  Same style: every hypothesis is stated literally for a
    concrete, non-trivial instance over a concrete semiring and proved; the theorem is then applied and
    a computed value is given.  No axioms. *)
@@ -212,6 +212,43 @@ Proof.
   split; [exact Hc|split; [exact Hz|split; [vm_compute; discriminate|split; [exact (P1 [0; 0] 0 Hc Hz)|split; [vr|split; [exact Hk|split; [exact (P2 [0; 0] [] Hk)|vr]]]]]]].
 Qed.
 
+(* ================================================================================================
+   C06 (top-down trimming)
+   ================================================================================================ *)
+From GV.model Require TopDown.
+From GV.gen Require Gen_Cfg.
+From GV.proofs Require TopDownTrimProofs ReachProofs.
+From GV.props Require C06.
+
+(* td_ex_G (proofs/TopDownTrimProofs.v): 0 -> a (1/2) | 1 b (1/3) | 3 (1/2);  1 -> a (1/5);  2 -> b (1/7) [unreachable];
+   3 -> 3 (1/2) [non-generating] *)
+Example C06_topdown_trim_preserves_nonvacuous :
+  TopDownTrimProofs.td_closed TopDownTrimProofs.td_ex_G TopDownTrimProofs.td_ex_keep /\
+  TopDownTrimProofs.td_ex_keep (N 0) = true /\
+  length (Gen_Cfg.gen_trim QcSR TopDownTrimProofs.td_ex_keep TopDownTrimProofs.td_ex_G) = 3 /\
+  length TopDownTrimProofs.td_ex_G = 6 /\
+  (forall h xs, W (Gen_Cfg.gen_trim QcSR TopDownTrimProofs.td_ex_keep TopDownTrimProofs.td_ex_G) h 0 xs = W TopDownTrimProofs.td_ex_G h 0 xs) /\
+  W TopDownTrimProofs.td_ex_G 3 0 [0; 1] = mkq 1 15.
+Proof.
+  split; [exact TopDownTrimProofs.td_ex_closed|]. split; [reflexivity|]. split; [vm_compute; reflexivity|]. split; [reflexivity|].
+  split; [|vr].
+  intros h xs.
+  exact (proj1 (C06.C06_topdown_trim_preserves QcSR TopDownTrimProofs.td_ex_G TopDownTrimProofs.td_ex_keep TopDownTrimProofs.td_ex_closed) h 0 xs eq_refl).
+Qed.
+
+Example C06_trim_preserves_nonvacuous :
+  TopDown.reachable TopDownTrimProofs.td_ex_G 0 = [1; 0] /\
+  length (TopDown.trim_model 0 TopDownTrimProofs.td_ex_G) = 3 /\
+  (forall h xs, W (TopDown.trim_model 0 TopDownTrimProofs.td_ex_G) h 0 xs = W TopDownTrimProofs.td_ex_G h 0 xs) /\
+  TopDown.trim_model 3 TopDownTrimProofs.td_ex_G = [] /\
+  (forall h xs, W TopDownTrimProofs.td_ex_G h 3 xs = W (TopDown.trim_model 3 TopDownTrimProofs.td_ex_G) h 3 xs).
+Proof.
+  split; [vm_compute; reflexivity|]. split; [vm_compute; reflexivity|].
+  split; [exact (proj1 (C06.C06_trim_preserves QcSR TopDownTrimProofs.td_ex_G 0))|].
+  split; [vm_compute; reflexivity|].
+  intros h xs. symmetry. exact (proj1 (C06.C06_trim_preserves QcSR TopDownTrimProofs.td_ex_G 3) h xs).
+Qed.
+
 Print Assumptions C02_ranked_grammars_nonvacuous.
 Print Assumptions C02_stable_weights_solve_the_equations_nonvacuous.
 Print Assumptions C09_product_grammar_nonvacuous.
@@ -219,3 +256,5 @@ Print Assumptions C11_path_equations_nonvacuous.
 Print Assumptions C14_forward_conjugate_nonvacuous.
 Print Assumptions C14_conjugates_are_equivalent_nonvacuous.
 Print Assumptions C04_rescaling_invariant_nonvacuous.
+Print Assumptions C06_topdown_trim_preserves_nonvacuous.
+Print Assumptions C06_trim_preserves_nonvacuous.
